@@ -330,6 +330,11 @@ func register(ty, name, fn string) error {
 			f = func(a []any, args ...any) []any { return []any{int64(1), "x"} }
 		case "const2":
 			f = func(a []any, args ...any) []any { return []any{int64(2)} }
+		case "unsup":
+			// a result that holds a value textwire cannot represent
+			f = func(a []any, args ...any) []any { return []any{int64(1), make(chan int)} }
+		case "unsup2":
+			f = func(a []any, args ...any) []any { return []any{map[string]any{"k": func() {}}} }
 		case "revip":
 			// changes the slice it received in place and returns that same slice
 			f = func(a []any, args ...any) []any {
